@@ -19,6 +19,7 @@ TECH = ("chain of exact identities at the symbolic state psi=1, mu=0, epsilon=1,
 
 def check(ctx):
     repo = ctx.repo
+    ctx.rule("R17.6", "in the stationary state the adaptive rule does run: it is gated by the solve-step counter only, and proposes min(1/2(dt + dt_init/1e-10), dt_max) = dt_max (shared with C12 R12.1)", 2)
     ctx.rule("R17.5", "the screening error is well defined for the current-free state: |dA| / max(|A|, positive constant) (shared with C13 R13.4)", 1)
     ctx.rule("R17.1", "at A = 0 the link variable is 1 and every row of psi_gradient / psi_laplacian (unpinned) sums to zero", 3)
     ctx.rule("R17.2", "solve_for_psi_squared(psi=1, |psi|^2=1, mu=0, eps=1, L psi=0) returns (1, 1) for all gamma>=0, u>0, dt>0", 2)
@@ -137,6 +138,10 @@ def check(ctx):
                       consequence="in the undriven state A_induced is exactly zero: a floor that scales with max|A| is 0, the error is 0/0 = nan, "
                                   "and the run stops with 'failed to converge' instead of staying at psi = 1"),
                repo.func(SOLVER, "TDGLSolver.get_induced_vector_potential"))
+    from . import c12
+    c12.check(Shared(ctx, {"R12.1": "R17.6"}, only=lambda inst: inst.startswith("the rule applies only") or inst.startswith("tentative_dt =="),
+                     consequence="the time step of the undriven uniform state never grows to dt_max (e.g. it sticks at dt_init whenever "
+                                 "save_every <= adaptive_window + 1)"))
     ctx.assume("exact arithmetic: whether floating-point row sums and sqrt((2z+1)^2) are exact is declined")
     ctx.assume("mu = 0 follows from the linear solve of a zero right-hand side (D.0 - B.0)")
     ctx.decline("'the adaptive time step grows to its maximum' needs dt_init/1e-10 >= 2 dt_max - dt, a relation between user options")
